@@ -78,6 +78,13 @@ func (c06) Plan(tier string, seed int64) []core.Scenario {
 	for i := 0; i < nW3; i++ {
 		out = append(out, core.Sc("w3").WithN("others", 1+i%3))
 	}
+	nSI := 6
+	if tier == "thorough" {
+		nSI = 60
+	}
+	for i := 0; i < nSI; i++ {
+		out = append(out, core.Sc("sub-inflight").WithN("others", i%3).WithN("pre", i%2))
+	}
 	nCh := 8
 	if tier == "thorough" {
 		nCh = 120
@@ -103,6 +110,8 @@ func (p c06) Run(sc core.Scenario) core.Result {
 		p.w3(sc, r)
 	case "churn":
 		p.churn(sc, r)
+	case "sub-inflight":
+		p.subInflight(sc, r)
 	}
 	return r.Result()
 }
@@ -369,6 +378,72 @@ func (c06) pre(sc core.Scenario, r *core.R) {
 	r.Sample(map[string]interface{}{"transport": tr, "instant": "context cancelled before the call", "siblings": len(others), "handler_ran": env.Svc.Enters(t)})
 }
 
+// subInflight: a channel-returning call is cancelled while its handler has not yet returned the channel
+// (slow set-up), or with a context that is already cancelled. The handler context must be cancelled and
+// the call must return; siblings are untouched.
+func (c06) subInflight(sc core.Scenario, r *core.R) {
+	env := NewEnv(EnvOpt{})
+	defer env.Shutdown()
+	pol := noisePolicy(sc)
+	defer pol.Install()()
+	cl, err := env.NewClient(ClientOpt{})
+	if err != nil {
+		r.Inconclusive("client: %v", err)
+		return
+	}
+	bg := context.Background()
+	var others []*member
+	for i := 0; i < sc.I("others"); i++ {
+		m := &member{tok: Tok("o")}
+		env.Svc.Hold(m.tok)
+		mm := m
+		m.out = Go(m.tok, func() (string, error) { return cl.Echo(bg, mm.tok, "") })
+		env.Svc.WaitEntered(m.tok, core.Grace)
+		others = append(others, m)
+	}
+	ctx, cancel := context.WithCancel(bg)
+	defer cancel()
+	if sc.I("pre") == 1 {
+		cancel()
+	}
+	t := Tok("s")
+	env.Svc.Hold(t)
+	o := Go(t, func() (string, error) {
+		ch, err := cl.Sub(ctx, t, 2, svc.SHoldBefore)
+		if ch != nil {
+			go func() {
+				for range ch {
+				}
+			}()
+		}
+		return "", err
+	})
+	entered := env.Svc.WaitEntered(t, core.Grace)
+	cancel()
+	if entered {
+		if !core.Eventually(core.Grace, func() bool { return env.Svc.Get(t).Ctx.Err() != nil }) {
+			r.Violate("cancel-not-delivered", "the context of a channel-returning call was cancelled while its handler had not yet returned the channel, but the handler context stayed live; events: %s", core.Log.Tail(30))
+		}
+	}
+	if !o.Wait(core.Grace) {
+		r.Violate("cancelled-call-hang", "a channel-returning call cancelled before its handler returned the channel never returned")
+	}
+	for _, m := range others {
+		if env.Svc.Get(m.tok).Ctx.Err() != nil {
+			r.Violate("foreign-cancel", "cancelling an in-flight subscribing call cancelled sibling %s", m.tok)
+		}
+		env.Svc.Release(m.tok)
+		if !m.out.Wait(core.Grace) || m.out.Err != nil {
+			r.Violate("kept-call-failed", "sibling failed: %v", m.out.Err)
+		}
+	}
+	env.Svc.ReleaseAll()
+	r.Key(fmt.Sprintf("sub-inflight others=%d pre=%d", len(others), sc.I("pre")), true)
+	r.Obs("cancelled", 1)
+	r.Sig(core.Log.Signature())
+	r.Sample(map[string]interface{}{"scenario": "channel-returning call cancelled before its handler returned the channel", "context_cancelled_before_call": sc.I("pre") == 1, "siblings": len(others)})
+}
+
 // churn: short subscriptions are opened and closed by their handlers, one after another, while long-lived
 // subscriptions (and a held unary call) stay open on the same connection. Nobody cancels the long-lived
 // ones, so their handler contexts must stay live throughout; cancelling them at the end must work.
@@ -391,7 +466,11 @@ func (c06) churn(sc core.Scenario, r *core.R) {
 	openLong := func() {
 		ctx, cancel := context.WithCancel(bg)
 		t := Tok("L")
-		ch, err := cl.Sub(ctx, t, 1, svc.SUntilCtx)
+		sub := cl.Sub
+		if len(longs)%2 == 1 {
+			sub = cl.SubNE // a handler method that returns only a channel
+		}
+		ch, err := sub(ctx, t, 1, svc.SUntilCtx)
 		if err != nil {
 			r.Violate("subscribe-failed", "long-lived subscription failed: %v", err)
 			cancel()
